@@ -4,7 +4,9 @@ package c09
 import (
 	"context"
 	"fmt"
+	"sync"
 	"testing"
+	"time"
 
 	"github.com/gebn/bmc"
 	"github.com/gebn/bmc/pkg/ipmi"
@@ -14,6 +16,7 @@ import (
 	"verif/harness/hx"
 	"verif/harness/ref"
 	"verif/harness/simbmc"
+	"verif/harness/udpnet"
 )
 
 var ev *evid.E
@@ -400,8 +403,98 @@ func TestStateMachine(t *testing.T) {
 	})
 }
 
+// TestUDPHistories: sessions over the real UDP transport (no hook): some in-session
+// replies are runts (0..3 bytes), short garbage, v1.5-shaped garbage or node busy,
+// so the library sends again under its own back-off. The numbering invariant is
+// checked on everything each BMC received.
+func TestUDPHistories(t *testing.T) {
+	conns, commands := ev.Pick(6, 16), ev.Pick(6, 14)
+	var wg sync.WaitGroup
+	var mu sync.Mutex
+	var firstMsg string
+	for i := 0; i < conns; i++ {
+		i := i
+		wg.Add(1)
+		go func() {
+			defer wg.Done()
+			msg, faults := func() (string, int) {
+				cr := hx.Creds{User: "admin", Password: []byte("pw"), Priv: 4, Suite: hx.Suites12()[(i+int(ev.Seed))%12], Seed: uint64(ev.Seed)*23 + uint64(i)}
+				b := simbmc.New(cr.Seed)
+				cr.Install(b)
+				srv, err := udpnet.Listen(b)
+				if err != nil {
+					return "", 0
+				}
+				defer srv.Close()
+				tr, err := bmc.DialV2(srv.Addr(), bmc.WithTimeout(150*time.Millisecond))
+				if err != nil {
+					return "", 0
+				}
+				defer tr.Close()
+				ctx, cancel := context.WithTimeout(context.Background(), 30*time.Second)
+				defer cancel()
+				sess, err := tr.NewV2Session(ctx, cr.Opts())
+				if err != nil {
+					return "", 0
+				}
+				faults, budget := 0, 4
+				srv.Arm(func(rx *simbmc.Rx) []udpnet.Reply {
+					var out []udpnet.Reply
+					for _, o := range rx.Replies {
+						out = append(out, udpnet.Reply{Data: o.Data})
+					}
+					if rx.Pkt == nil || rx.Pkt.SessionID == 0 || rx.Msg == nil || faults >= budget {
+						return out
+					}
+					switch b.Rand.Intn(8) {
+					case 0:
+						faults++
+						return []udpnet.Reply{{Data: b.Rand.Bytes(b.Rand.Intn(4))}} // a runt (possibly empty)
+					case 1:
+						faults++
+						return []udpnet.Reply{{Data: append([]byte{0x06, 0x00, 0xff, 0x07}, b.Rand.Bytes(1+b.Rand.Intn(8))...)}}
+					case 2:
+						faults++
+						return []udpnet.Reply{{Data: b.Wrap(rx.Sess, b.ResponseFor(rx.Msg, 0xC0, nil).Bytes()).Data}}
+					}
+					return out
+				})
+				for k := 0; k < commands; k++ {
+					if k%3 == 2 {
+						tr.GetSystemGUID(ctx) // session-less traffic in between
+					} else {
+						sess.GetDeviceID(ctx)
+					}
+				}
+				time.Sleep(20 * time.Millisecond)
+				srv.Lock()
+				defer srv.Unlock()
+				if err := invariant(b, b.Sessions[sess.RemoteID]); err != nil {
+					return fmt.Sprintf("UDP history (suite %v, %d faulted replies): %v", cr.Suite, faults, err), faults
+				}
+				return "", faults
+			}()
+			mu.Lock()
+			defer mu.Unlock()
+			ev.Eval()
+			if faults > 0 {
+				ev.NonTrivial(fmt.Sprintf("udp-history|%d|%d", i, faults))
+				ev.Label("udp-history-with-retransmission")
+			}
+			if msg != "" && firstMsg == "" {
+				firstMsg = msg
+				ev.Violation("TestUDPHistories", map[string]any{"connection": i}, msg)
+			}
+		}()
+	}
+	wg.Wait()
+	if firstMsg != "" {
+		t.Fatalf("%s", firstMsg)
+	}
+}
+
 func TestCoverage(t *testing.T) {
-	ev.RequireLabels(t, 1, "enumeration-complete", "session-closed-and-another-opened", "unanswered-run>=16", "session-with-integrity-none", "history-with-retransmission", "two-sessions-interleaved", "stray-in-session-reply-during-sessionless-command", "bmc-numbers-sessionless-packets")
+	ev.RequireLabels(t, 1, "enumeration-complete", "udp-history-with-retransmission", "session-closed-and-another-opened", "unanswered-run>=16", "session-with-integrity-none", "history-with-retransmission", "two-sessions-interleaved", "stray-in-session-reply-during-sessionless-command", "bmc-numbers-sessionless-packets")
 }
 
 func min(a, b int) int {
